@@ -162,11 +162,17 @@ func ApplyPostMutation(rv reflect.Value) {
 			rv.Set(reflect.ValueOf(t.Add(time.Hour)))
 			return
 		}
+		// the string field with the smallest name (independent of field declaration order)
+		best := -1
 		for i := 0; i < rv.NumField(); i++ {
 			if f := rv.Field(i); f.Kind() == reflect.String && f.CanSet() {
-				f.SetString(f.String() + "~")
-				return
+				if best < 0 || rv.Type().Field(i).Name < rv.Type().Field(best).Name {
+					best = i
+				}
 			}
+		}
+		if best >= 0 {
+			rv.Field(best).SetString(rv.Field(best).String() + "~")
 		}
 	}
 }
